@@ -21,6 +21,7 @@ def shards(tier, seed):
     out = [{"id": "h%d" % i, "kind": "hist", "n": per} for i in range(n)]
     out += [{"id": "tour%d" % i, "kind": "tour", "n": 12 if tier == "quick" else 600} for i in range(4)]
     out += [{"id": "big%d" % i, "kind": "big", "n": 1 if tier == "quick" else 6, "i": i} for i in range(8)]
+    out += [{"id": "prepared", "kind": "prepared", "n": 12 if tier == "quick" else 400}]
     out += [{"id": "congruent%d" % i, "kind": "congruent", "n": 6 if tier == "quick" else 200} for i in range(2)]
     return out
 
@@ -217,6 +218,108 @@ def run_tour(ctx, rng, world):
     return visits
 
 
+def run_prepared(ctx, rng, world):
+    """command objects prepared ahead of time for windows of a buffer pool (memoryview slices, arrays, an anonymous mmap, plain
+    bytearrays), the pool filled afterwards, the commands issued then -- and one of them issued again after its window was
+    updated: what the target stores is what the window held when the command was issued"""
+    import array
+    import mmap
+
+    import pyscsi.pyscsi.scsi_enum_command as E
+    from pyscsi.pyscsi.scsi import SCSI
+    from pyscsi.pyscsi.scsi_cdb_write10 import Write10
+    from pyscsi.pyscsi.scsi_cdb_write12 import Write12
+    from pyscsi.pyscsi.scsi_cdb_write16 import Write16
+    from pyscsi.pyscsi.scsi_cdb_writesame16 import WriteSame16
+    from pyscsi.utils import init_device
+
+    from vmon.sim import devnode
+    from vmon.sim.target import Target
+
+    for transport in ("sgio", "iscsi"):
+        bs = rng.choice([512, 520, 4096])
+        tgt = Target(0, 0, bs, 1 << 20)
+        if transport == "sgio":
+            dev = init_device(devnode.new_node(), read_write=True)
+            world["sg"].handler = tgt.handle
+        else:
+            dev = init_device("iscsi://192.0.2.1:3260/iqn.2003-01.org.example:disk/4", initiator_name="iqn.2003-01.org.example:me")
+            world["is"].handler = tgt.handle
+        world["sg"].log = []
+        world["is"].log = []
+        try:
+            s = SCSI(dev, bs)
+            nslots = 6
+            kinds = [rng.choice(["memoryview", "memoryview", "array", "mmap", "bytearray", "memoryview_of_mmap"]) for _ in range(nslots)]
+            pool = bytearray(nslots * 2 * bs)
+            big = mmap.mmap(-1, nslots * 2 * bs)
+            prepared = []
+            for i, kind in enumerate(kinds):
+                tl = rng.choice([1, 2])
+                lo = i * 2 * bs
+                if kind == "memoryview":
+                    win = memoryview(pool)[lo:lo + tl * bs]
+                elif kind == "memoryview_of_mmap":
+                    win = memoryview(big)[lo:lo + tl * bs]
+                elif kind == "array":
+                    win = array.array("B", bytes(tl * bs))
+                elif kind == "mmap":
+                    win = mmap.mmap(-1, tl * bs)
+                else:
+                    win = bytearray(tl * bs)
+                lba = 100 * (i + 1)
+                w = rng.choice([10, 12, 16, "same16"])
+                if w == "same16":
+                    win = win[:bs] if kind != "mmap" else win
+                    if kind == "mmap":
+                        win = mmap.mmap(-1, bs)
+                    cmd = WriteSame16(E.sbc.WRITE_SAME_16, bs, lba, tl, win)
+                else:
+                    cls = {10: Write10, 12: Write12, 16: Write16}[w]
+                    cmd = cls(getattr(E.sbc, "WRITE_%d" % w), bs, lba, tl, win)
+                prepared.append((cmd, win, lba, tl, w, kind))
+            # the producer fills the windows after the commands were prepared
+            def fill(win, gen):
+                for j in range(len(win)):
+                    win[j] = (gen * 31 + j * 7 + 1) & 0xFF
+
+            wit0 = {"transport": transport, "bs": bs}
+            for round_ in range(2):
+                for i, (cmd, win, lba, tl, w, kind) in enumerate(prepared):
+                    if round_ == 1 and i % 2:
+                        continue  # every other command is issued a second time with new contents
+                    fill(win, i + 10 * round_ + 1)
+                    at_issue = bytes(win)
+                    wit = dict(wit0, payload_object=kind, command="write%s" % w, lba=lba, blocks=tl, issued=round_ + 1)
+                    ctx.case(("prepared", transport, kind, w, round_), True)
+                    ctx.count("prepared_commands_issued")
+                    ctx.add("payload_objects", kind)
+                    try:
+                        if rng.random() < 0.5:
+                            dev.execute(cmd)
+                        else:
+                            s.execute(cmd)
+                    except Exception as e:  # noqa: BLE001
+                        ctx.fail("C12:prepared.command_rejected.%s" % type(e).__name__, "a prepared WRITE with a %s payload failed over %s: %s: %s" % (kind, transport, type(e).__name__, str(e)[:120]), wit, exc=e)
+                        continue
+                    want = at_issue if w != "same16" else at_issue[:bs] * tl
+                    got = bytes(s.read16(lba, tl).datain)
+                    ctx.count("reads_compared")
+                    if got != want:
+                        ctx.fail("C12:prepared.read_returns_other_data_than_issued", "blocks %#x+%d hold %r..., the %s payload held %r... when the command was issued (over %s, issue %d)"
+                                 % (lba, tl, got[:12], kind, want[:12], transport, round_ + 1), wit)
+            if tgt.anomalies:
+                ctx.fail("C12:prepared.target_anomaly", tgt.anomalies[0], wit0)
+            for _c, win, *_r in prepared:
+                if isinstance(win, memoryview):
+                    win.release()
+        finally:
+            try:
+                dev.close()
+            except Exception:  # noqa: BLE001
+                pass
+
+
 def payload(op_id, idx, bs):
     """every written block carries (operation id, block index); every 5th operation writes all-zero blocks and every
     7th all-FF blocks (payload *content* must not matter to the transport)"""
@@ -406,6 +509,10 @@ def run(shard, ctx):
     install.install_fakes()
     world = {"sg": sys.modules["sgio"], "is": sys.modules["iscsi"]}
     rng = ctx.rng()
+    if shard.get("kind") == "prepared":
+        for h in range(shard["n"]):
+            run_prepared(ctx, rng, world)
+        return
     if shard.get("kind") == "tour":
         for h in range(shard["n"]):
             visits = run_tour(ctx, rng, world)
@@ -444,5 +551,5 @@ def finalize(merged, tier):
 
 def replay(rec, ctx):
     sh = rec.get("shard") or "h0"
-    kind = "tour" if sh.startswith("tour") else "big" if sh.startswith("big") else "congruent" if sh.startswith("congruent") else "hist"
+    kind = "prepared" if sh.startswith("prepared") else "tour" if sh.startswith("tour") else "big" if sh.startswith("big") else "congruent" if sh.startswith("congruent") else "hist"
     run({"id": sh, "kind": kind, "n": 13 if kind == "hist" else 12 if kind == "tour" else 1, "i": int(sh[3:]) if kind == "big" else 0}, ctx)
